@@ -236,6 +236,8 @@ theorem setFinalisedHash_step (n : Node) (h r s : Nat) : Step n (setFinalisedHas
   unfold setFinalisedHash
   split
   · exact ⟨hi, (Reach.same rfl rfl).mono (by omega)⟩
+  split
+  · exact ⟨hi, (Reach.same rfl rfl).mono (by omega)⟩
   · obtain ⟨i1, i2, i3, i4⟩ := handleFinalised_spec n h hi
     generalize hr : handleFinalised n h = res at i1 i2 i3 i4
     obtain ⟨n1, ok⟩ := res
